@@ -1469,6 +1469,7 @@ def _read_syntax_quoted(ctx: ReaderContext) -> RawReaderForm:
         return _process_syntax_quoted_form(ctx, _read_owed_form(ctx, "syntax quote"))
 
 
+@_with_loc
 def _read_unquote(ctx: ReaderContext) -> LispForm:
     """Read an unquoted form and handle any special logic of unquoting.
 
